@@ -5,12 +5,15 @@ import (
 
 	"verif/harness/internal/crashpt"
 	"verif/harness/internal/ctlsim"
+	"verif/harness/internal/restfuzz"
 )
 
 func runOtherWorker(engine string, wa workerArgs) error {
 	switch engine {
 	case "crashpt":
 		return crashpt.RunWorker(wa.prop, wa.seed, wa.worker, wa.cases, wa.scratch, wa.out, wa.extra)
+	case "restfuzz":
+		return restfuzz.RunWorker(wa.prop, wa.seed, wa.worker, wa.cases, wa.scratch, wa.out, wa.extra)
 	case "ctlsim":
 		return ctlsim.RunWorker(wa.prop, wa.seed, wa.worker, wa.cases, wa.out)
 	}
